@@ -55,6 +55,8 @@ def adjacency_function(case):
         per = [i for i, b in enumerate(a[1]) if b]
         if not per:
             return None
+        if case.get('per_negative'):
+            per = [i - len(a[1]) for i in per]          # axes counted from the end, as numpy does
         if len(per) == 1 and case.get('per_scalar'):
             return periodic_neighbours(per[0])
         return periodic_neighbours(per)
@@ -99,7 +101,12 @@ def criteria_functions(case):
             fs.append(pruning.min_sum(c[1] / s if s != 1 else c[1]))
         elif c[0] == 'seeds':
             shape = tuple(case['shape'])
-            coords = np.unravel_index(np.array(c[1], dtype=int), shape)
+            flat = list(c[1])
+            if len(flat) > 1 and sum(flat) % 2 == 1:
+                flat = flat[::-1]                     # a seed catalogue need not be in raster order ...
+            if sum(flat) % 3 == 0:
+                flat = flat + flat[:1]                # ... nor free of duplicates
+            coords = np.unravel_index(np.array(flat, dtype=int), shape)
             fs.append(pruning.contains_seeds(tuple(np.asarray(x) for x in coords)))
         elif c[0] == 'delta':
             fs.append(pruning.min_delta(c[1] / s))
